@@ -189,6 +189,11 @@ func (ex *exchange) handler() http.Handler {
 			_ = req.Body.Close()
 		}
 		if sc.mutate {
+			for _, vv := range req.Header { // edit the values where they are (redacting a credential, say)
+				for i := range vv {
+					vv[i] = "edited-in-place"
+				}
+			}
 			req.Header.Set("X-Scribble", "attempt")
 			req.Header.Del("X-Multi")
 			for k := range req.Header {
